@@ -210,3 +210,21 @@ Proof.
     + replace (labels <? zlen owner - 1) with true by lia. f_equal. f_equal. unfold zlen in *. lia.
   - now destruct (wild_owner_model owner labels Hv Ha H0 H1) as (_ & V & _).
 Qed.
+
+(* RFC 4034 3.1.3: the labels field does not count a leading "*"; a wildcard owner with any other
+   labels value is refused *)
+Theorem make_rrsig_data_rejects_wild_mismatch tbl r rrname rdclass rdtype rdatas origin signer owner :
+  rfc_expand (r_signer r) origin = Ok signer -> Valid signer ->
+  rfc_expand rrname origin = Ok owner -> Valid owner ->
+  is_wild owner = true -> r_labels r <> rfc_label_count owner - 1 ->
+  make_rrsig_data tbl r rrname rdclass rdtype rdatas origin = Lib eValidationFailure.
+Proof.
+  intros Es Vs Eo Vo Hw Hl. unfold make_rrsig_data.
+  rewrite (absolutize_rfc _ _ _ Es Vs). cbn [bind].
+  pose proof (rfc_expand_abs _ _ _ Es) as As.
+  destruct (rrsig_prefix r origin signer Es) as (w & Ew & Fw). rewrite Ew. cbn [bind].
+  rewrite (to_wire_abs signer true As). cbn [bind].
+  rewrite (absolutize_rfc _ _ _ Eo Vo). cbn [bind].
+  unfold rfc_label_count in Hl. rewrite Hw.
+  replace (r_labels r =? zlen owner - 2) with false by lia. reflexivity.
+Qed.
